@@ -243,3 +243,207 @@ def zip_alignment(led, rid, ctx):
                           "longer line up (a coefficient is attached to the wrong variable as soon as the "
                           "selection drops an element)" % (who, sel[0] if sel else ""))
     led.floor(rid, "zip sites", n, 5)
+
+
+# ---------------------------------------------------------------------------------------------
+# BOOLFORM: the Boolean builtins of the FlatZinc front-end, decided by truth table
+
+from ..linform import Evaluator, Undecided, holds_atom, lin_value
+
+
+class FznEvaluator(Evaluator):
+    """linear-form evaluator extended with literals, clauses and the compiler's resolve_* calls"""
+
+    def __init__(self, prog, lib, idx_env):
+        Evaluator.__init__(self, prog)
+        self.lib = lib
+        self.idx_env = idx_env
+
+    def callee(self, call):
+        g = Evaluator.callee(self, call)
+        if g is None and self.lib is not None:
+            tgt = call.resolved or call.defn or ""
+            for cand in (tgt, tgt.replace("pumpkin_solver::", "")):
+                if cand in self.lib.fns:
+                    return self.lib.fns[cand]
+            short = tgt.replace("pumpkin_solver::", "")
+            hits = [f for d, f in self.lib.fns.items() if d.endswith(short.split("constraints::", 1)[-1])
+                    and "constraints" in d] if "constraints::" in short else []
+            if len(hits) == 1:
+                return hits[0]
+        return g
+
+    def arg_index(self, e):
+        """constant index i of an `exprs[i]` operand"""
+        for x in e.walk():
+            if x.k == "proj":
+                for pr in x.b or []:
+                    if "index" in pr:
+                        v = self.idx_env.get(pr["index"])
+                        if v is not None and v.k == "const" and v.a is not None:
+                            return v.a
+                    if "const_index" in pr:
+                        return pr["const_index"]
+        raise Undecided("index of " + show(e)[:60])
+
+    def ev(self, e, env):
+        if e.k == "proj" and e.b and any("downcast" in pr and pr["downcast"] == "Continue" for pr in e.b):
+            inner = peel(e.a, calls=None)
+            if inner.k == "call" and inner.a.name == "branch":
+                return self.ev(inner.b[0], env)
+        return Evaluator.ev(self, e, env)
+
+    def call(self, e, env):
+        c = e.a
+        n = c.name
+        args = e.b
+        if n == "resolve_bool_variable":
+            return ("lit", "v%d" % self.arg_index(args[1]), True)
+        if n == "resolve_bool_variable_array":
+            i = self.arg_index(args[1])
+            return ("list", [("lit", "v%d_0" % i, True), ("lit", "v%d_1" % i, True)])
+        if n == "resolve_integer_variable":
+            return ("lin", {"i%d" % self.arg_index(args[1]): 1}, 0)
+        if n == "not" and len(args) == 1:
+            v = self.ev(args[0], env)
+            if v[0] == "lit":
+                return ("lit", v[1], not v[2])
+            raise Undecided("not on %s" % v[0])
+        if n in ("get_true_predicate",):
+            v = self.ev(args[0], env)
+            if v[0] == "lit":
+                return v
+            raise Undecided("get_true_predicate on %s" % v[0])
+        if n == "get_false_predicate":
+            v = self.ev(args[0], env)
+            return ("lit", v[1], not v[2])
+        if n == "get_integer_variable":
+            v = self.ev(args[0], env)
+            if v[0] == "lit":
+                return ("lin", {v[1]: 1}, 0) if v[2] else ("lin", {v[1]: -1}, 1)
+        if n in ("clause", "conjunction") and len(args) == 1:
+            return ("bool", n, self.as_list(self.ev(args[0], env)))
+        if n in ("scaled", "offset"):
+            v = self.ev(args[0], env)
+            if v[0] == "lit":
+                v = ("lin", {v[1]: 1}, 0) if v[2] else ("lin", {v[1]: -1}, 1)
+                e = E("call", c, [E("other", "lifted")] + list(args[1:]))
+                k_ = self.ev(args[1], env)
+                from ..linform import scale, offset
+                return scale(v, k_[1]) if n == "scaled" else offset(v, k_[1])
+        v = Evaluator.call(self, e, env)
+        return v
+
+    def as_lin(self, v):
+        if v[0] == "lit":
+            return ("lin", {v[1]: 1}, 0) if v[2] else ("lin", {v[1]: -1}, 1)
+        return v
+
+
+def _truth(v, sg):
+    if v[0] == "lit":
+        return bool(sg[v[1]]) == v[2]
+    raise Undecided("truth of %s" % v[0])
+
+
+BOOL_SPECS = {
+    # name: (vars, spec)
+    "compile_bool_not": lambda s: s["v0"] != s["v1"],
+    "compile_bool_eq": lambda s: s["v0"] == s["v1"],
+    "compile_bool_eq_reif": lambda s: bool(s["v2"]) == (s["v0"] == s["v1"]),
+    "compile_bool_and": lambda s: bool(s["v2"]) == bool(s["v0"] and s["v1"]),
+    "compile_bool_or": lambda s: bool(s["v1"]) == bool(s["v0_0"] or s["v0_1"]),
+    "compile_array_bool_and": lambda s: bool(s["v1"]) == bool(s["v0_0"] and s["v0_1"]),
+    "compile_bool_xor": lambda s: s["v0"] != s["v1"],
+    "compile_bool_xor_reif": lambda s: bool(s["v2"]) == (s["v0"] != s["v1"]),
+    "compile_bool_clause": lambda s: bool(s["v0_0"] or s["v0_1"] or not s["v1_0"] or not s["v1_1"]),
+    "compile_bool2int": lambda s: s["i1"] == s["v0"],
+}
+
+
+def boolform(led, rid, ctx):
+    """the Boolean builtins post constraints with the truth table of the FlatZinc builtin"""
+    import itertools
+    b = ctx.bin
+    lib = ctx.lib
+    n = 0
+    ADT = {"LE": "Inequality", "EQ": "EqualConstraint", "NE": "NotEqualConstraint"}
+    for name, spec in BOOL_SPECS.items():
+        f = b.fn(name)
+        bad = None
+        try:
+            ps = [p for p in SymExec(f, max_paths=600).run() if not p.diverged and p.ret is not None
+                  and not any(c.name == "from_residual" for c in p.ret.calls())]
+            if not ps:
+                raise Undecided("no success path")
+            p = max(ps, key=lambda q: len([1 for c, a, r in q.calls if c.name in ("post", "reify", "add_clause")]))
+            ev_ = FznEvaluator(b, lib, p.env)
+            effects = []
+            for c, args, res in p.calls:
+                if c.name == "post" and args:
+                    effects.append(("holds", ev_.ev(args[0], {}), None))
+                elif c.name == "reify" and len(args) >= 3:
+                    effects.append(("iff", ev_.ev(args[0], {}), ev_.ev(args[2], {})))
+                elif c.name == "add_clause" and len(args) >= 2:
+                    effects.append(("holds", ("bool", "clause", ev_.as_list(ev_.ev(args[1], {}))), None))
+            if not effects:
+                raise Undecided("posts nothing")
+            vars_ = set()
+
+            def collect(v):
+                if v[0] == "lit":
+                    vars_.add(v[1])
+                elif v[0] == "lin":
+                    vars_.update(v[1])
+                elif v[0] in ("list",):
+                    for x in v[1]:
+                        collect(x)
+                elif v[0] == "bool":
+                    for x in v[2]:
+                        collect(x)
+                elif v[0] == "atom":
+                    for x in v[2]:
+                        collect(x)
+                    collect(v[3])
+            for k_, cv, rv in effects:
+                collect(cv)
+                if rv is not None:
+                    collect(rv)
+            # variables the specification talks about
+            import re as _re
+            names = sorted(vars_)
+
+            def sem(cv, sg):
+                if cv[0] == "bool":
+                    vals = [_truth(x, sg) for x in cv[2]]
+                    return any(vals) if cv[1] == "clause" else all(vals)
+                if cv[0] == "atom":
+                    atoms = [cv]
+                    if cv[1] in ADT:
+                        atoms = Evaluator(lib).posted(lib.method(ADT[cv[1]], "post", "Constraint"), cv)
+                    return all(holds_atom(t, sg) for t in atoms)
+                raise Undecided("meaning of %s" % cv[0])
+            dom = {v: ((0, 1) if v.startswith("v") else (-1, 0, 1, 2)) for v in names}
+            for vals in itertools.product(*[dom[v] for v in names]):
+                sg = dict(zip(names, vals))
+                got = True
+                for k_, cv, rv in effects:
+                    t = sem(cv, sg)
+                    if k_ == "holds":
+                        got = got and t
+                    else:
+                        got = got and (_truth(rv, sg) == t)
+                try:
+                    want = bool(spec(sg))
+                except KeyError as ke:
+                    raise Undecided("the builtin's variable %s is not used" % ke)
+                if got != want:
+                    bad = "%s the assignment %s" % ("accepts" if got else "rejects", sg)
+                    break
+        except Undecided as u:
+            bad = "cannot be evaluated (%s)" % u
+        n += 1
+        led.check(bad is None, rid, "bool:%s" % name.replace("compile_", ""), f.span, "truth table of the builtin",
+                  "%s posts constraints that do not have the truth table of the FlatZinc builtin: it %s"
+                  % (name, bad))
+    led.floor(rid, "Boolean builtins", n, 10)
